@@ -19,6 +19,11 @@ let parse_act a =
   | 'I' -> AInsert (n_of_int (int_of_string (String.sub a 1 (String.length a - 1))))
   | 'A' -> ASetAdv (z_of_int (int_of_string (String.sub a 1 (String.length a - 1))))
   | 'X' -> ASetShift (z_of_int (int_of_string (String.sub a 1 (String.length a - 1))))
+  | 'Y' -> ASetShiftY (z_of_int (int_of_string (String.sub a 1 (String.length a - 1))))
+  | 'T' -> AAttach (z_of_int (int_of_string (String.sub a 1 (String.length a - 1))))
+  | 'P' | 'W' -> let u = String.index a '_' in
+           let x = z_of_int (int_of_string (String.sub a 1 (u - 1))) and y = z_of_int (int_of_string (String.sub a (u + 1) (String.length a - u - 1))) in
+           if a.[0] = 'P' then AAttPt (x, y) else AWithPt (x, y)
   | 'S' -> let i = String.index a 'i' and o = String.index a 'o' in
            APutSubs (z_of_int (int_of_string (String.sub a 1 (i - 1))), gids (String.sub a (i + 1) (o - i - 1)), gids (String.sub a (o + 1) (String.length a - o - 1)))
   | _ -> failwith "act"
@@ -42,15 +47,21 @@ let () =
   try while true do
     let line = input_line stdin in
     (match List.filter (fun s -> s <> "") (split ' ' line) with
-     | [id; "gdl"; prog; advs; input] ->
+     | [id; "gdl"; nsub; prog; advs; input] ->
        (try
          let passes = List.map parse_pass (split '/' prog) in
          let at = Array.of_list (List.map int_of_string (split ',' advs)) in
          let adv g = let i = int_of_n g in z_of_int (if i < Array.length at then at.(i) else 0) in
-         let l0 = List.map (fun x -> let g = n_of_int (int_of_string x) in { s_gid = g; s_adv = adv g; s_shx = Z0 }) (List.filter (fun x -> x <> "") (split ',' input)) in
-         let out = run_passes adv passes l0 in
-         let os = origins out Z0 in
-         Printf.printf "%s R %s\n" id (String.concat ";" (List.map2 (fun s o -> Printf.sprintf "%d,%d,%d" (int_of_n s.s_gid) (int_of_z s.s_adv) (int_of_z o)) out os))
+         let l0 = List.map (fun x -> let g = n_of_int (int_of_string x) in mkslot g (adv g) Z0) (List.filter (fun x -> x <> "") (split ',' input)) in
+         let out = run_passes adv (nat_of_int (int_of_string nsub)) passes l0 in
+         let (fin, ps) = positions out in
+         let tbl = Hashtbl.create 16 in
+         List.iter (fun (i, (x, y)) -> Hashtbl.replace tbl (int_of_n i) (int_of_z x, int_of_z y)) ps;
+         let rec idx i = function [] -> [] | s :: r -> (i, s) :: idx (i + 1) r in
+         Printf.printf "%s R adv=%d %s\n" id (int_of_z (fst fin)) (String.concat ";" (List.map (fun (i, s) ->
+           let (x, y) = (try Hashtbl.find tbl i with Not_found -> (0, 0)) in
+           let rec nat_to_int = function O -> 0 | S n -> 1 + nat_to_int n in
+           Printf.sprintf "%d,%d,%d,%d,%d" (int_of_n s.s_gid) (int_of_z s.s_adv) x y (match s.s_par with Some p -> nat_to_int p | None -> -1)) (idx 0 out)))
        with Failure m -> Printf.printf "%s R UNPARSABLE %s\n" id m | Not_found -> Printf.printf "%s R UNPARSABLE\n" id)
      | id :: _ -> Printf.printf "%s R BAD\n" id
      | [] -> print_endline "? R BAD")
